@@ -40,6 +40,9 @@ def build_argv(opts, outs, layout, wd, inputs, report=None, json_path=None, core
             a += [f"{flag}-output", os.path.join(d, f"{stem}.1.fq")]
             if paired:
                 a += [f"{flag}-paired-output", os.path.join(d, f"{stem}.2.fq")]
+    for key, flag in (("info_file", "--info-file"), ("rest_file", "--rest-file"), ("wildcard_file", "--wildcard-file")):
+        if outs.get(key):
+            a += [flag, os.path.join(d, key + ".txt")]
     if report:
         a += [f"--report={report}"]
     if json_path:
@@ -96,6 +99,8 @@ class Router:
         self.untrimmed_mode = "both" if (self.paired and (not self.has1 or not self.has2)) else mode
 
     def process(self, r1, r2=None):
+        if r2 is not None and self.o.get("pair_adapters"):
+            return self.model.process_pair_adapters(r1, r2)
         a = self.model.process(r1[0], r1[1], r1[2], 0)
         b = self.model.process(r2[0], r2[1], r2[2], 1) if r2 is not None else None
         return a, b
@@ -181,8 +186,10 @@ def corpus(adapter=AD1, tag="r"):
     """Reads whose TRIMMED length / N count / expected errors / CASAVA flag / adapter presence take every combination."""
     recs = []
     k = 0
-    for blen in (4, 5, 8, 10, 11, 12):
+    for blen in (0, 4, 5, 8, 10, 11, 12):
         for ncount in (0, 1, 2, 3):
+            if blen == 0 and ncount:
+                continue
             for qkind in ("good", "q10", "oneQ0"):
                 for casava in ("N", "Y"):
                     for has in (False, True):
@@ -196,7 +203,7 @@ def corpus(adapter=AD1, tag="r"):
                         elif qkind == "q10":
                             q = "+" * blen
                         else:
-                            q = "I" * (blen - 1) + "!"
+                            q = ("I" * (blen - 1) + "!") if blen else ""
                             q = q[::-1] if blen > 4 else q
                         seq = body + (adapter if has else "")
                         qual = q + ("I" * len(adapter) if has else "")
@@ -213,7 +220,7 @@ def mate_corpus(recs1, adapter=AD2):
     n = len(base)
     out = []
     for i, r in enumerate(recs1):
-        b = base[(i * 37 + 11) % n]
+        b = base[(i * 7 + i // 2 + i // 12 + 11) % n]
         out.append((r[0].replace(" 1:", " 2:"), b[1], b[2]))
     return out
 
